@@ -2,7 +2,7 @@
 
 Through the real CLI (gambit -d DB query ...), outputs parsed from the file.
 Batches: every non-empty ordered selection without repetition of <=3 of 4 genomes (40) + batches with a repeated genome.
-Dimensions (first = default): channel (positional / list file + --ldir / signature file), compression (as stored / the opposite), -c (unset,1,2,16),
+Dimensions (first = default): channel (positional / list file + --ldir / signature file), compression (as stored / the opposite / multi-member gzip), -c (unset,1,2,16),
 progress, output format (csv/json/archive), --strict.  Quick: every batch at the default vector + every <=1 deviation for the single and pair
 batches; thorough: <=2 deviations for every batch.  Reference chunk size is not exposed by the CLI: it is varied through the library's query().
 Oracle: (1) one row/item per input, in order; (2) label = refmodel.ref_label(path) (stored ID for the signature channel); (3) context-freeness,
@@ -25,7 +25,7 @@ ASSUMPTIONS = ['4 query genomes, 6 reference genomes; batches of <= 3; reference
 LABELS = ['g1', 'g2', 'g3', 'g4']
 DIMS = dict(
 	channel=['positional', 'list', 'sigfile'],
-	comp=['stored', 'opposite'],
+	comp=['stored', 'opposite', 'multi-member-gzip'],
 	cores=['unset', '1', '2', '16'],
 	progress=['--no-progress', '--progress'],
 	fmt=['csv', 'json', 'archive'],
@@ -71,12 +71,13 @@ def invoke(fx, d, batch, v, tag='out'):
 		args.append('--strict')
 	if v['cores'] != 'unset':
 		args += ['-c', v['cores']]
-	paths = [(fx.q if v['comp'] == 'stored' else fx.qgz)[l] for l in batch]
+	src = {'stored': (fx.q, 'q'), 'opposite': (fx.qgz, 'qalt'), 'multi-member-gzip': (fx.qmulti, 'qmulti')}[v['comp']]
+	paths = [src[0][l] for l in batch]
 	if v['channel'] == 'positional':
 		args += paths
 		exp_labels = [R.ref_label(p) for p in paths]
 	elif v['channel'] == 'list':
-		base = os.path.join(fx.d, 'q' if v['comp'] == 'stored' else 'qalt')
+		base = os.path.join(fx.d, src[1])
 		rel = [os.path.relpath(p, base) for p in paths]
 		lf = clifix.write_listfile(os.path.join(d, 'list.txt'), rel)
 		args += ['-l', lf, '--ldir', base]
